@@ -1,0 +1,377 @@
+//! Verification hooks (cargo feature `verif`, off by default).
+//!
+//! Nothing in here changes what the interpreter computes. The hooks only *observe*: every
+//! instruction result together with the static type of that instruction, every function entry
+//! and exit, and they offer a logical step budget ("fuel") so that runaway programs can be
+//! abandoned without a wall clock. All state is thread local, so a monitor installed on one
+//! thread never sees events of another thread.
+use crate::{
+    ExecError,
+    function::{Body, Function},
+    instruction::{ExecResult, ExecStop, Instruction},
+    interpreter::Interpreter,
+    variable::{ReturnType, Type, Variable},
+};
+use std::{
+    cell::{Cell, RefCell},
+    collections::HashSet,
+    panic::{AssertUnwindSafe, catch_unwind},
+    sync::Arc,
+};
+
+/// What an instruction produced.
+pub enum Outcome<'a> {
+    Value(&'a Variable),
+    Break,
+    Continue,
+    Return(&'a Variable),
+    Error(&'a ExecError),
+}
+
+/// One observed `Instruction::exec`.
+pub struct ExecEvent<'a> {
+    /// Name of the `Instruction` variant.
+    pub kind: &'static str,
+    /// Operator for BinOperation / UnaryOperation, empty otherwise.
+    pub detail: String,
+    /// Source text of the innermost enclosing `InstructionWithStr`.
+    pub src: Arc<str>,
+    /// `return_type()` of this instruction; `None` if computing it panicked.
+    pub static_type: Option<Type>,
+    pub outcome: Outcome<'a>,
+    /// true while the innermost running function frame is one of the interpreter's own
+    /// generic helper closures (declared over placeholder types)
+    pub in_helper: bool,
+    pub depth: usize,
+}
+
+pub struct CallEvent<'a> {
+    pub function: &'a Function,
+    /// values bound to the parameters (looked up by name in the callee's interpreter);
+    /// `None` for a parameter that is not bound
+    pub args: Vec<Option<Variable>>,
+    pub helper: bool,
+    pub native: bool,
+    pub depth: usize,
+}
+
+pub struct ReturnEvent<'a> {
+    pub function: &'a Function,
+    pub result: Result<&'a Variable, &'a ExecError>,
+    pub helper: bool,
+    pub native: bool,
+    pub depth: usize,
+}
+
+pub trait Monitor {
+    fn on_exec(&mut self, _event: &ExecEvent) {}
+    fn on_call(&mut self, _event: &CallEvent) {}
+    fn on_return(&mut self, _event: &ReturnEvent) {}
+}
+
+/// Panic payload used when the logical step budget is used up.
+#[derive(Debug)]
+pub struct FuelExhausted;
+/// Panic payload used when the call depth cap is exceeded.
+#[derive(Debug)]
+pub struct DepthExhausted;
+
+thread_local! {
+    static MONITOR: RefCell<Option<Box<dyn Monitor>>> = const { RefCell::new(None) };
+    static ACTIVE: Cell<bool> = const { Cell::new(false) };
+    static PASS_EXEC: Cell<bool> = const { Cell::new(false) };
+    static PASS_CALL: Cell<bool> = const { Cell::new(false) };
+    static FUEL: Cell<u64> = const { Cell::new(u64::MAX) };
+    static DEPTH_CAP: Cell<usize> = const { Cell::new(usize::MAX) };
+    static YIELD_EVERY: Cell<u64> = const { Cell::new(0) };
+    static TICKS: Cell<u64> = const { Cell::new(0) };
+    static HELPER_SCOPE: Cell<usize> = const { Cell::new(0) };
+    static FRAMES: RefCell<Vec<bool>> = const { RefCell::new(Vec::new()) };
+    static HELPER_BODIES: RefCell<HashSet<usize>> = RefCell::new(HashSet::new());
+    static SRC: RefCell<Vec<Arc<str>>> = const { RefCell::new(Vec::new()) };
+}
+
+/// Install a monitor for the current thread (replacing any previous one).
+pub fn install(monitor: Box<dyn Monitor>) {
+    MONITOR.with(|m| *m.borrow_mut() = Some(monitor));
+    ACTIVE.with(|a| a.set(true));
+    reset();
+}
+
+/// Remove and return the current thread's monitor.
+pub fn uninstall() -> Option<Box<dyn Monitor>> {
+    ACTIVE.with(|a| a.set(false));
+    reset();
+    MONITOR.with(|m| m.borrow_mut().take())
+}
+
+/// Forget all per-execution state (call after an execution ended by unwinding).
+pub fn reset() {
+    PASS_EXEC.with(|p| p.set(false));
+    PASS_CALL.with(|p| p.set(false));
+    HELPER_SCOPE.with(|p| p.set(0));
+    FRAMES.with(|f| f.borrow_mut().clear());
+    SRC.with(|s| s.borrow_mut().clear());
+}
+
+/// Logical step budget for the current thread: one step per loop iteration and per function entry.
+pub fn set_fuel(fuel: u64) {
+    FUEL.with(|f| f.set(fuel));
+}
+
+pub fn fuel_left() -> u64 {
+    FUEL.with(Cell::get)
+}
+
+pub fn ticks() -> u64 {
+    TICKS.with(Cell::get)
+}
+
+pub fn set_depth_cap(cap: usize) {
+    DEPTH_CAP.with(|d| d.set(cap));
+}
+
+/// Call `std::thread::yield_now()` on every n-th step (0 = never). Steps are taken between
+/// interpreter steps only, never inside a cell's critical section.
+pub fn set_yield_every(n: u64) {
+    YIELD_EVERY.with(|y| y.set(n));
+}
+
+/// Source text of the statement / expression being executed on this thread (innermost).
+pub fn current_src() -> Option<Arc<str>> {
+    SRC.with(|s| s.borrow().last().cloned())
+}
+
+pub fn depth() -> usize {
+    FRAMES.with(|f| f.borrow().len())
+}
+
+fn active() -> bool {
+    ACTIVE.with(Cell::get)
+}
+
+fn with_monitor(f: impl FnOnce(&mut dyn Monitor)) {
+    // take the monitor out while it runs so that a monitor that itself executes code
+    // does not observe itself
+    let taken = MONITOR.with(|m| m.borrow_mut().take());
+    if let Some(mut monitor) = taken {
+        f(monitor.as_mut());
+        MONITOR.with(|m| {
+            let mut slot = m.borrow_mut();
+            if slot.is_none() {
+                *slot = Some(monitor);
+            }
+        });
+    }
+}
+
+pub(crate) fn fuel_tick() {
+    TICKS.with(|t| t.set(t.get().wrapping_add(1)));
+    let every = YIELD_EVERY.with(Cell::get);
+    if every != 0 && TICKS.with(Cell::get) % every == 0 {
+        std::thread::yield_now();
+    }
+    let left = FUEL.with(Cell::get);
+    if left == u64::MAX {
+        return;
+    }
+    if left == 0 {
+        std::panic::panic_any(FuelExhausted);
+    }
+    FUEL.with(|f| f.set(left - 1));
+}
+
+pub(crate) struct SrcGuard(bool);
+
+impl Drop for SrcGuard {
+    fn drop(&mut self) {
+        if self.0 {
+            SRC.with(|s| {
+                s.borrow_mut().pop();
+            });
+        }
+    }
+}
+
+pub(crate) fn src_scope(src: &Arc<str>) -> SrcGuard {
+    if !active() {
+        return SrcGuard(false);
+    }
+    SRC.with(|s| s.borrow_mut().push(src.clone()));
+    SrcGuard(true)
+}
+
+pub(crate) struct HelperGuard;
+
+impl Drop for HelperGuard {
+    fn drop(&mut self) {
+        HELPER_SCOPE.with(|h| h.set(h.get().saturating_sub(1)));
+    }
+}
+
+/// Marks the dynamic extent in which the interpreter builds one of its generic helper closures.
+pub(crate) fn helper_scope() -> HelperGuard {
+    HELPER_SCOPE.with(|h| h.set(h.get() + 1));
+    HelperGuard
+}
+
+fn in_helper_frame() -> bool {
+    FRAMES.with(|f| f.borrow().last().copied().unwrap_or(false))
+}
+
+fn body_key(function: &Function) -> Option<usize> {
+    match &function.body {
+        Body::Lang(body) => Some(Arc::as_ptr(body) as *const u8 as usize),
+        Body::Native(_) => None,
+    }
+}
+
+/// A function value was just created by executing a function literal / declaration.
+pub(crate) fn function_created(function: &Function) {
+    if !active() {
+        return;
+    }
+    if (HELPER_SCOPE.with(Cell::get) > 0 || in_helper_frame())
+        && let Some(key) = body_key(function)
+    {
+        HELPER_BODIES.with(|h| {
+            h.borrow_mut().insert(key);
+        });
+    }
+}
+
+/// true if this function is one of the interpreter's own generic helper closures
+pub fn is_helper(function: &Function) -> bool {
+    body_key(function).is_some_and(|key| HELPER_BODIES.with(|h| h.borrow().contains(&key)))
+}
+
+pub(crate) fn kind(instruction: &Instruction) -> (&'static str, String) {
+    match instruction {
+        Instruction::AnonymousFunction(_) => ("AnonymousFunction", String::new()),
+        Instruction::Array(_) => ("Array", String::new()),
+        Instruction::ArrayRepeat(_) => ("ArrayRepeat", String::new()),
+        Instruction::Block(_) => ("Block", String::new()),
+        Instruction::Break => ("Break", String::new()),
+        Instruction::Continue => ("Continue", String::new()),
+        Instruction::DestructTuple(_) => ("DestructTuple", String::new()),
+        Instruction::FieldAccess(_) => ("FieldAccess", String::new()),
+        Instruction::FunctionDeclaration(_) => ("FunctionDeclaration", String::new()),
+        Instruction::IfElse(_) => ("IfElse", String::new()),
+        Instruction::LocalVariable(..) => ("LocalVariable", String::new()),
+        Instruction::Loop(_) => ("Loop", String::new()),
+        Instruction::Match(_) => ("Match", String::new()),
+        Instruction::Mut(_) => ("Mut", String::new()),
+        Instruction::Reduce(_) => ("Reduce", String::new()),
+        Instruction::Set(_) => ("Set", String::new()),
+        Instruction::SetIfElse(_) => ("SetIfElse", String::new()),
+        Instruction::Slicing(_) => ("Slicing", String::new()),
+        Instruction::Struct(_) => ("Struct", String::new()),
+        Instruction::Tuple(_) => ("Tuple", String::new()),
+        Instruction::TupleAccess(_) => ("TupleAccess", String::new()),
+        Instruction::TypeFilter(_) => ("TypeFilter", String::new()),
+        Instruction::Variable(_) => ("Variable", String::new()),
+        Instruction::BinOperation(op) => ("BinOperation", format!("{:?}", op.op)),
+        Instruction::UnaryOperation(op) => ("UnaryOperation", format!("{:?}", op.op)),
+    }
+}
+
+/// Re-entrancy switch for `Instruction::exec`: returns true when the caller should run the
+/// observed (wrapping) path, false when it should fall through to the original body.
+pub(crate) fn enter_exec() -> bool {
+    if !active() {
+        return false;
+    }
+    if PASS_EXEC.with(Cell::get) {
+        PASS_EXEC.with(|p| p.set(false));
+        return false;
+    }
+    PASS_EXEC.with(|p| p.set(true));
+    true
+}
+
+pub(crate) fn observe_exec(instruction: &Instruction, result: &ExecResult) {
+    let (kind, detail) = kind(instruction);
+    let static_type = catch_unwind(AssertUnwindSafe(|| instruction.return_type())).ok();
+    let outcome = match result {
+        Ok(value) => Outcome::Value(value),
+        Err(ExecStop::Break) => Outcome::Break,
+        Err(ExecStop::Continue) => Outcome::Continue,
+        Err(ExecStop::Return(value)) => Outcome::Return(value),
+        Err(ExecStop::Error(error)) => Outcome::Error(error),
+    };
+    let event = ExecEvent {
+        kind,
+        detail,
+        src: current_src().unwrap_or_else(|| Arc::from("")),
+        static_type,
+        outcome,
+        in_helper: in_helper_frame(),
+        depth: depth(),
+    };
+    with_monitor(|m| m.on_exec(&event));
+}
+
+pub(crate) fn enter_call() -> bool {
+    if PASS_CALL.with(Cell::get) {
+        PASS_CALL.with(|p| p.set(false));
+        return false;
+    }
+    PASS_CALL.with(|p| p.set(true));
+    true
+}
+
+pub(crate) struct FrameGuard;
+
+impl Drop for FrameGuard {
+    fn drop(&mut self) {
+        FRAMES.with(|f| {
+            f.borrow_mut().pop();
+        });
+    }
+}
+
+pub(crate) fn call_enter(function: &Function, interpreter: &Interpreter) -> FrameGuard {
+    let helper = is_helper(function) || HELPER_SCOPE.with(Cell::get) > 0;
+    let depth = FRAMES.with(|f| {
+        let mut frames = f.borrow_mut();
+        frames.push(helper);
+        frames.len()
+    });
+    let guard = FrameGuard;
+    if depth > DEPTH_CAP.with(Cell::get) {
+        std::panic::panic_any(DepthExhausted);
+    }
+    fuel_tick();
+    if !active() {
+        return guard;
+    }
+    let args = function
+        .params
+        .iter()
+        .map(|param| interpreter.get_variable(&param.name).cloned())
+        .collect();
+    let event = CallEvent {
+        function,
+        args,
+        helper,
+        native: matches!(function.body, Body::Native(_)),
+        depth,
+    };
+    with_monitor(|m| m.on_call(&event));
+    guard
+}
+
+pub(crate) fn call_exit(function: &Function, result: &Result<Variable, ExecError>) {
+    if !active() {
+        return;
+    }
+    let helper = in_helper_frame();
+    let event = ReturnEvent {
+        function,
+        result: result.as_ref(),
+        helper,
+        native: matches!(function.body, Body::Native(_)),
+        depth: depth(),
+    };
+    with_monitor(|m| m.on_return(&event));
+}
